@@ -163,7 +163,7 @@ theorem addCore_rel_eq (e : Ent) (add : List Comp) (rels : List RelID) (w : Worl
     and the writes -/
 theorem opAdd_rel_eq (run : ProbeRunner) (p : Path) (e : Ent) (ids : List Comp)
     (vals : List (Comp × Val)) (rels : List RelID) (w : World) (ha : w.alive e = true)
-    (hpre : preCheck p ids rels w = .ok () w) {old new : Mask} {w2 : World}
+    (hpre : preCheck (p.addCheck ids) ids rels w = .ok () w) {old new : Mask} {w2 : World}
     (hcore : addCore e ids rels w = .ok (old, new) w2)
     (hno : ∀ (evt : Nat), w2.obs.hasObservers evt = false) :
     opAdd run p e ids vals rels w = .ok () (writeValsW w2 e vals) := by
@@ -230,8 +230,8 @@ theorem opAdd_rel_core (run : ProbeRunner) (p : Path) {w : World} {fl : List Nat
   obtain ⟨A, hA, i1, i2, i3, _⟩ := hS.tblArch oldT _ hT
   have hAe := arch_of_get hA
   -- the pre-validation passed
-  have hpre : preCheck p ids rels w = .ok () w := by
-    rcases preCheck_cases p ids rels w with h1 | ⟨k, h1⟩
+  have hpre : preCheck (p.addCheck ids) ids rels w = .ok () w := by
+    rcases preCheck_cases (p.addCheck ids) ids rels w with h1 | ⟨k, h1⟩
     · exact h1
     · cases p <;> simp [opAdd, bind, M.bind, M.get, M.assert, ha, h1] at hok
   -- the component list is not empty and the lookup succeeded
@@ -500,17 +500,17 @@ theorem opAdd_rel_spec (run : ProbeRunner) (p : Path) {w : World} {fl : List Nat
     AddRelPost w fl e ids vals rels w' :=
   (opAdd_rel_core run p h hl hno h2 hnf ha hsl hreg hnd hin hrc hfew hrows hok).2 htin
 
-/-- **rejection** (typed paths): `Add` naming a dead target is refused with `deadTarget`, the
-    world unchanged -/
-theorem opAdd_deadTarget (run : ProbeRunner) (p : Path) (hp : p ≠ .unsafe_) (e : Ent)
+/-- **rejection** (every path, since the repair of the `Unsafe` API): `Add` naming a dead target
+    is refused with `deadTarget`, the world unchanged -/
+theorem opAdd_deadTarget (run : ProbeRunner) (p : Path) (e : Ent)
     (ids : List Comp) (vals : List (Comp × Val)) (rels : List RelID) (w : World)
     (ha : w.alive e = true)
     (hv : ∀ (r : RelID), r ∈ rels → w.isRelComp r.comp = true ∧ (Mask.ofList ids).get r.comp = true)
     (hd : ∃ (r : RelID), r ∈ rels ∧ r.target.isZero = false ∧ w.alive r.target = false) :
     opAdd run p e ids vals rels w = .panic .deadTarget w := by
-  have hpre := preCheck_deadTarget p hp ids w rels hv hd
+  have hpre := preCheck_deadTarget (p.addCheck ids) ids w rels hv hd
   cases p with
-  | unsafe_ => exact absurd rfl hp
+  | unsafe_ => simp [opAdd, bind, M.bind, M.get, M.assert, ha, hpre]
   | map1 => simp [opAdd, bind, M.bind, M.get, M.assert, ha, hpre]
   | typed => simp [opAdd, bind, M.bind, hpre]
 
